@@ -157,3 +157,117 @@ func H13_reuse() {
 	}
 	sv.Reach("history-done")
 }
+
+var c13Sets = []string{
+	"union(xs, ys)", "string(union(xs, ys))", "union(xs, ys)[3]", "union(ys, xs) == union(ys, xs)",
+	"intersect(ys, xs)", "diff(ys, xs)", "string(intersect(ys, ys)) + string(diff(ys, xs))", "union(union(xs, ys), ys)",
+}
+
+// H13_sets: the set functions keep their elements in Go maps internally; what
+// they return (element order included) must not depend on how those maps
+// happen to be iterated. The right operand contributes several elements that
+// the left one lacks.
+func H13_sets() {
+	src := c13Sets[sv.Choice("prog", len(c13Sets))]
+	lt := types.List(types.Num)
+	tenv := types.NewEnv()
+	tenv.Put("xs", lt)
+	tenv.Put("ys", lt)
+	e := exprWith(sv.Choice("backend", hx.NBackends))
+	c, err := e.Compile(src, tenv)
+	sv.Assert("compiles", err == nil)
+	mk := func(xs ...float64) *val.Val {
+		l := val.List(lt.List(), len(xs)).List()
+		for i, x := range xs {
+			l.V[i] = val.Num(x)
+		}
+		return l.Vl()
+	}
+	first := sv.Float64("x0")
+	sv.Assume(sv.And(first > 100, first < 1000)) // apart from the concrete elements
+	xs, ys := mk(first, 2), mk(9, 8.5, 2, 7)
+	if sv.Thorough() {
+		ys = mk(9, 8.5, 2, 7, -1)
+	}
+	run := func() *val.Val {
+		venv := val.NewEnv()
+		venv.Put("xs", xs)
+		venv.Put("ys", ys)
+		r, err := c(venv)
+		sv.Assert("evaluates", err == nil && r != nil)
+		return r
+	}
+	base := run()
+	sv.MapOrder(1) // every iteration order of every Go map from here on
+	for i := 0; i < sv.Repeats(300); i++ {
+		again := run()
+		sv.Assert("same-result-for-every-map-order", hx.RefSameVal(base, again))
+	}
+	sv.MapOrder(0)
+	sv.Reach("compared")
+}
+
+// H13_again: one compiled closure invoked on several environments in turn.
+// Every result - and every line printed - is that of the environment at hand;
+// nothing computed for an earlier invocation (a forced lazy operand, say) is
+// kept. The programs use a host-registered lazy function, whose operands
+// reach the back ends as deferred computations.
+func H13_again() {
+	e := exprWith(sv.Choice("backend", hx.NBackends))
+	e.RegisterFun(val.LazyFun(types.Fun("when", []*types.Type{types.Bool, types.Num, types.Num}, types.Num), func(args ...*val.Val) *val.Val {
+		if args[0].Fun().Call().Bool().V {
+			return args[1].Fun().Call()
+		}
+		return args[2].Fun().Call()
+	}))
+	e.RegisterFun(val.LazyFun(types.Fun("both", []*types.Type{types.Num, types.Num}, types.Num), func(args ...*val.Val) *val.Val {
+		return val.Num(args[0].Fun().Call().Num().V + args[1].Fun().Call().Num().V)
+	}))
+	type prog struct {
+		src  string
+		want func(c bool, a, b float64) float64
+		out  func(c bool) string
+	}
+	none := func(bool) string { return "" }
+	progs := []prog{
+		{"when(c, a + 1, b)", func(c bool, a, b float64) float64 { return sv.IteF(c, a+1, b) }, none},
+		{"both(a, b) + when(c, b, a)", func(c bool, a, b float64) float64 { return (a + b) + sv.IteF(c, b, a) }, none},
+		{"when(c, both(a, a), both(b, 1))", func(c bool, a, b float64) float64 { return sv.IteF(c, a+a, b+1) }, none},
+		{"when(c, print(7), print(8)) + a", func(c bool, a, b float64) float64 { return sv.IteF(c, 7, 8) + a }, func(c bool) string {
+			if c {
+				return "7\n"
+			}
+			return "8\n"
+		}},
+	}
+	p := progs[sv.Choice("prog", len(progs))]
+	tenv := types.NewEnv()
+	tenv.Put("a", types.Num)
+	tenv.Put("b", types.Num)
+	tenv.Put("c", types.Bool)
+	cl, err := e.Compile(p.src, tenv)
+	sv.Assert("compiles", err == nil)
+	if err != nil {
+		return
+	}
+	for k := 0; k < 3; k++ {
+		n := hx.Itoa(k)
+		a, b, c := sv.Float64("a"+n), sv.Float64("b"+n), sv.Bool("c"+n)
+		venv := val.NewEnv()
+		venv.Put("a", val.Num(a))
+		venv.Put("b", val.Num(b))
+		cv := val.False
+		if c {
+			cv = val.True
+		}
+		venv.Put("c", cv)
+		var r *val.Val
+		out := sv.CaptureStdout(func() { r, err = cl(venv) })
+		sv.Assert("evaluates", err == nil && r != nil)
+		if err == nil && r != nil {
+			sv.Assert("result-is-that-of-the-environment-at-hand", r.Type == types.Num && sv.Same(r.Num().V, p.want(c, a, b)))
+			sv.Assert("output-is-that-of-the-environment-at-hand", sv.StrEq(out, p.out(c)))
+		}
+	}
+	sv.Reach("invoked-three-times")
+}
